@@ -215,7 +215,16 @@ func FeeParamsOK(r *marketapi.FeeParams) bool {
 
 // Install registers the row invariants: each is assumed for every row of the pre-state
 // the step reads (and for the rows those refer to).
+const mathPkg = "github.com/regen-network/regen-ledger/types/v2/math"
+
 func Install() {
+	// pure decimal helpers are summarised by merging their paths (they are checked path by
+	// path, including operand aliasing, by the C19 harnesses)
+	zz.MergeCallee("(" + mathPkg + ".Dec).SdkIntTrim")
+	zz.MergeCallee("(" + mathPkg + ".Dec).Mul")
+	zz.MergeCallee("(" + mathPkg + ".Dec).MulExact")
+	zz.MergeCallee("(" + mathPkg + ".Dec).QuoExact")
+	zz.MergeCallee("(" + mathPkg + ".Dec).Reduce")
 	zz.OrmInvariant(TCreditType, CreditTypeOK)
 	zz.OrmInvariant(TClass, ClassOK)
 	zz.OrmInvariant(TClassIssuer, ClassIssuerOK)
@@ -331,6 +340,12 @@ func CheckC01(b uint64) {
 	db := DeltaBalances(b)
 	// basket holdings are keyed by denom: only an existing batch has one
 	dk := zz.QIf(zz.OrmExists1(TBatch, b), DeltaBaskets(BatchDenom(b)), q0())
+	zz.Label("delta.supply.tradable", ds.Tradable)
+	zz.Label("delta.supply.retired", ds.Retired)
+	zz.Label("delta.balances.tradable", db.Tradable)
+	zz.Label("delta.balances.escrowed", db.Escrowed)
+	zz.Label("delta.balances.retired", db.Retired)
+	zz.Label("delta.baskets", dk)
 	zz.Assert(zz.QEq(ds.Tradable, zz.QAdd(zz.QAdd(db.Tradable, db.Escrowed), dk)), "C01 tradable supply delta = balances + escrow + baskets delta")
 	zz.Assert(zz.QEq(ds.Retired, db.Retired), "C01 retired supply delta = retired balances delta")
 	zz.Assert(zz.AllWritten(TBatchBalance, func(r *api.BatchBalance) bool {
@@ -339,7 +354,12 @@ func CheckC01(b uint64) {
 	zz.Assert(zz.AllWritten(TBatchSupply, func(r *api.BatchSupply) bool {
 		return and(AmountOK(r.TradableAmount), AmountOK(r.RetiredAmount), AmountOK(r.CancelledAmount))
 	}), "C01 written supplies are non-negative with <= precision places")
-	zz.Assert(zz.AllWritten(TBasketBalance, func(r *basketapi.BasketBalance) bool { return AmountOK(r.Balance) }),
+	zz.Assert(zz.AllWritten(TBasketBalance, func(r *basketapi.BasketBalance) bool {
+		zz.Label("dbg.bb.value", zz.QParse(r.Balance))
+		zz.Label("dbg.bb.ok", AmountOK(r.Balance))
+		zz.Label("dbg.bb.id", r.BasketId)
+		return AmountOK(r.Balance)
+	}),
 		"C01 written basket balances are non-negative with <= precision places")
 }
 
